@@ -285,12 +285,18 @@ m("C04", "proof",
   "(C04_*_limit_exactly_at_Nth); and C04_dest_silent_peer_idle_after_2N: with the default table a receiver "
   "whose peer is silent re-sends N-1 times, cancels at the N-th expiry (nested call queues the Finished "
   "(cancel) PDU and restarts the procedure, C04_dest_cancel_completes), re-sends N-1 times, abandons at the "
-  "N-th: idle, exactly 2(N-1)+1 PDUs after the original, none afterwards.",
+  "N-th: idle, exactly 2(N-1)+1 PDUs after the original, none afterwards. "
+  "Likewise the SENDER (C04_source_silent_peer_idle_after_2N, with C04_source_limit_fault_cancels): N-1 identical "
+  "copies of the EOF, the N-th expiry cancels (one EOF with condition Positive ACK Limit Reached, same size field "
+  "and same checksum - the bytes sent have not changed), N-1 identical copies of that PDU, the N-th expiry "
+  "abandons: idle.",
   "Lean 4 theorems (one-step contracts + induction over expiry times + composition to the 2N bound) + "
   "scenario enumeration",
-  "§6 C04, §11", ["the 2N composition is proved for the receiver's Finished procedure; for the sender and the NAK "
-                  "procedure the N-th-expiry theorems are proved and the hand-over to the cancellation exchange "
-                  "is the one-step C14 lemmas"])
+  "§6 C04, §11", ["the 2N composition is proved for the receiver's Finished procedure and for the sender's EOF "
+                  "procedure (C04_dest_silent_peer_idle_after_2N, C04_source_silent_peer_idle_after_2N); for the "
+                  "NAK procedure the N-th-expiry theorem is proved and the hand-over to the cancellation exchange "
+                  "(Finished (cancel) with its own positive ACK procedure) is C04_dest_cancel_completes + the "
+                  "receiver's 2N theorem from there"])
 m("C05", "proof",
   "destination sessions with arbitrary File Data (any offsets, overlaps, duplicates, beyond EOF, before "
   "Metadata), EOFs anywhere, cancel requests, rejected writes, several transactions per handler, random fault "
